@@ -34,9 +34,24 @@ func (f FrameJ) PB() Frame {
 
 var payloadLens = []int{0, 1, 2, 31, 32, 33, 127, 128, 129, 255, 256, 1000, 4095, 4096, 16383, 16384, 16385}
 
+var versionShapes = []string{"v1.2.3", "V1.2.3", "v1", "V2", "v0.0.1", "v", "V", "vv1.0", "v.1", "version1", "1.0.0-rc.1", "1.0.0+build.5",
+	"1.0.0-alpha+001", "0.0.0", "0", "00.01.002", "9999.9999.99999", "1.2", "1.2.3.4", "1..2", ".1.2", "1.2.", " 1.2.3", "1.2.3 ", "1.2.3\n",
+	"\t1.0", "latest", "HEAD", "r123", "1.2.3-", "-1.2.3", "+1", "1.0.0-0.3.7", "1.0.0-x.7.z.92", "v1.0.0-rc1+b7", "=1.2.3", "^1.2.3", "~1.2", "1.x", "*"}
+
+const versionAlphabet = "0123456789.-+vVabrcxXRC_ "
+
 // GenVersion draws a version of 0..16 bytes not ending in NUL.
 func GenVersion(t *rapid.T) []byte {
-	switch gen.Uniform(t, 6, "verclass") {
+	switch gen.Uniform(t, 9, "verclass") {
+	case 6: // the shapes versions have in the wild: tag prefixes, pre-release / build suffixes, padding, odd spellings
+		return []byte(versionShapes[gen.Uniform(t, len(versionShapes), "vershape")])
+	case 7, 8: // 1..16 bytes over the alphabet of version strings (so that "looks like a version" code paths are taken)
+		n := 1 + gen.Uniform(t, 16, "verlen2")
+		v := make([]byte, n)
+		for i := range v {
+			v[i] = versionAlphabet[gen.Uniform(t, len(versionAlphabet), "verch")]
+		}
+		return v
 	case 0:
 		return []byte{}
 	case 1:
